@@ -156,7 +156,13 @@ func (x *CommonLex) Error(s string) {
 		return
 	}
 	x.progBldr.parseErr = fmt.Errorf("%s", s)
-	if x.peek != xutils.EOF {
+	if x.peek == xutils.ERR {
+		// An invalid byte was read ahead.  It is one byte of the input,
+		// not the 3 bytes the ERR marker rune would encode to; using the
+		// latter can make lineAtErr longer than the whole expression and
+		// CreateProgram slice with a negative index.
+		x.progBldr.lineAtErr = "?" + string(x.line)
+	} else if x.peek != xutils.EOF {
 		x.progBldr.lineAtErr = string(x.peek) + string(x.line)
 	} else {
 		x.progBldr.lineAtErr = string(x.line)
